@@ -16,7 +16,10 @@ COMMON_ASSUMPTIONS = [
     "sequentially consistent interleavings only (one thread runs at a time); weak-memory behaviours are not explored",
     "preemption granularity = atomic operations, pthread/clock/sleep calls and thread start/exit; plain-memory races between two such points are not exposed",
     "sampling, not enumeration: a clean batch is evidence, not proof",
-    "pika compiled by clang-14 -O2 with atomics-only TSan instrumentation (no source change; guard macro PIKA_VERIF_SIM is defined but tested nowhere)",
+    "pika compiled by clang-14 -O2 with atomics-only TSan instrumentation (no source change; guard macro PIKA_VERIF_SIM is defined but tested nowhere); "
+    "-DMOODYCAMEL_CPP11_THREAD_LOCAL_SUPPORTED is passed so that the queue's thread-exit listener is compiled in as in a gcc build",
+    "operator new/delete of the process are replaced by the harness's heap quarantine: blocks of up to 16 KiB released during a run are poisoned and "
+    "kept until its end (a write after release or a double release is a violation; memory is not reused within a run)",
 ]
 
 LEVEL_TEXT = ("Seeded exploration: thousands (quick) to hundreds of thousands (thorough) of simulated executions of the real pika code, each "
